@@ -144,6 +144,14 @@ SCRIPTS = {
     "read-rekey-read": [["NewSession", "A"], ["OpenSp", 0, typed({"a": 0})], ["Init", 0, False], ["Copy", 0],
                         ["Cached", 0], ["Repr", 1], ["Edit", 0, [], ["set", "a", typed(1)]], ["Cached", 0], ["Repr", 1],
                         ["Cached", 1], ["Repr", 0], ["IdPath", 1]],
+    # two independent by-id handles of one job on one Project object; re-key through one; the other and a re-opened old id
+    "byid-twins-rekey": [["NewSession", "A"], ["OpenSp", 0, typed({"a": 0})], ["Init", 0, False],
+                         ["OpenId", 0, "9bfd29df07674bc4aa960cf661b5acd2"], ["OpenId", 0, "9bfd29df07674bc4aa960cf661b5acd2"],
+                         ["Cached", 1], ["Edit", 1, [], ["set", "a", typed(1)]], ["IdPath", 2], ["Cached", 2], ["Repr", 2],
+                         ["OpenId", 0, "9bfd29df07674bc4aa960cf661b5acd2"], ["Cached", 3], ["IdPath", 3],
+                         ["NewSession", "A"], ["OpenId", 1, "42b7b4f2921788ea14dac5566e6f06d0"],
+                         ["OpenId", 1, "42b7b4f2921788ea14dac5566e6f06d0"], ["Cached", 4],
+                         ["Edit", 5, [], ["set", "b", typed(0)]], ["Cached", 4], ["IdPath", 4], ["Sp", 4]],
     "lifecycle-clean": [["NewSession", "A"], ["NewSession", "B"], ["OpenSp", 0, typed({"a": 0, "c": [1, 2]})],
                         ["Init", 0, False], ["DocSet", 0, "p", typed([1, {"z": None}])],
                         ["WriteFile", 0, ["sub", "x.bin"], "00ff10"], ["Sp", 0], ["Copy", 0],
@@ -252,7 +260,8 @@ def random_ops(desc, W):
         if W.handles and rng.random() < 0.12:
             # ---- composite patterns (classes of histories that single random ops rarely compose)
             pat = rng.choice(["multikey", "mutate", "copymove", "mutate-assigned", "pickle-shared", "pickle-shared",
-                              "sibling-remove", "sibling-remove", "byid-rejected", "byid-rejected", "read-rekey-read"])
+                              "sibling-remove", "sibling-remove", "byid-rejected", "byid-rejected", "read-rekey-read",
+                              "byid-twins", "byid-twins"])
             if pat == "sibling-remove":
                 # two independent live handles of one job (second open_job(sp), open_job(id=...) in the same or a fresh
                 # session): the job is (re-)initialised through one, removed through the other, and then the first one
@@ -287,6 +296,49 @@ def random_ops(desc, W):
                                           ["Edit", first, [], ["set", "b", typed(rng.choice(VALS["b"]))]]])
                         yield rng.choice([["Contains", si, first], ["Len", si], ["Ids", si], ["Reset", second],
                                           ["Init", second, False]])
+            elif pat == "byid-twins":
+                # two INDEPENDENT by-id handles of one job on one Project object (both served from / reading through the
+                # same entry of its state point cache); a re-key through one; then id / cached_statepoint / statepoint of
+                # the other, and the old id opened once more: an independent handle need not follow, but it must never
+                # show a state point that does not hash to its id
+                h = pick_handle(sp_safe)
+                j = W.handles[h]
+                root = os.path.relpath(j._project.path, W.root)
+                si = [i for i, r_ in enumerate(sess_root) if r_ == root][0]
+                yield ["Init", h, False]
+                if W.last_out == ["unit"]:
+                    old_id = W.handles[h].id
+                    if rng.random() < 0.5:
+                        yield ["NewSession", root]
+                        sess_root.append(root)
+                        si = len(sess_root) - 1
+                    b1 = len(W.handles)
+                    yield ["OpenId", si, old_id]
+                    if len(W.handles) > b1:
+                        new_group(b1)
+                        if rng.random() < 0.7:
+                            yield [rng.choice(["Cached", "Repr", "Sp"]), b1]
+                        b2 = len(W.handles)
+                        yield ["OpenId", si, old_id]
+                        if len(W.handles) > b2:
+                            new_group(b2)
+                            if rng.random() < 0.4:
+                                yield [rng.choice(["Cached", "Repr"]), b2]
+                            k = rng.choice(KEYS)
+                            mover, other = (b1, b2) if rng.random() < 0.6 else (b2, b1)
+                            yield rng.choice([["Edit", mover, [], ["set", k, typed(rng.choice(VALS[k]))]],
+                                              ["UpdateSp", mover, typed({k: rng.choice(VALS[k])}), True]])
+                            if W.last_out == ["exn", "EDestinationExists"]:
+                                dirty.add(mover)
+                            yield ["IdPath", other]
+                            yield ["Cached", other]
+                            yield rng.choice([["Repr", other], ["Sp", other], ["IdPath", mover]])
+                            b3 = len(W.handles)
+                            yield ["OpenId", si, old_id]
+                            if len(W.handles) > b3:
+                                new_group(b3)
+                                yield ["Cached", b3]
+                                yield ["IdPath", b3]
             elif pat == "byid-rejected":
                 # a handle obtained by id on a FRESH Project object (no persistent cache unless the history wrote one),
                 # state point never read through it; a whole assignment / update that collides with another initialised
